@@ -19,9 +19,21 @@ static int op_fault(int argc, char **argv, FILE *o) {
     const char *api, *mode; uint64_t i = 0; int rc = 99; char extra[256] = "";
     unsigned char out[256], salt[32]; char s[128];
     if (argc < 2) return -1;
+    char apibuf[64]; size_t MEMV = MEM; char str_m[128];
     api = argv[0]; mode = argv[1];
     if (argc > 2 && hx_u64(argv[2], &i)) return -1;
     make_strs();
+    {   /* "<api>.m<bytes>": the same call with another memory limit (the allocation sequence does not depend on it; the mapping size does) */
+        const char *dot = strstr(api, ".m");
+        if (dot != NULL) {
+            uint64_t mv; if ((size_t) (dot - api) >= sizeof apibuf || hx_u64(dot + 2, &mv) || mv < 8192 || mv > (64u << 20)) return -1;
+            memcpy(apibuf, api, (size_t) (dot - api)); apibuf[dot - api] = 0; api = apibuf; MEMV = (size_t) mv;
+            if (strstr(api, "verify") && crypto_pwhash_argon2id_str(str_m, PW, strlen(PW), 1, MEMV) != 0) return -1;
+        }
+    }
+#undef MEM
+#define MEM MEMV
+#define str_id (MEMV == 8192U ? str_id : str_m)
     memset(salt, 7, sizeof salt); memset(out, 0, sizeof out); memset(s, 0x5c, sizeof s);
     hxw_ev_reset();
     hxw_fail_only = !strcmp(mode, "only") ? (int) i : -1;
@@ -53,6 +65,9 @@ static int op_fault(int argc, char **argv, FILE *o) {
     else if (!strcmp(api, "scrypt_ll")) rc = crypto_pwhash_scryptsalsa208sha256_ll((const uint8_t *) PW, strlen(PW), salt, 32, 16, 1, 1, out, 32);
     else if (!strcmp(api, "sodium_malloc")) { void *p = sodium_malloc(100); rc = p == NULL ? -1 : 0; if (p) { hxw_count_on = 0; sodium_free(p); hxw_live_blocks--; } }
     else if (!strcmp(api, "sodium_allocarray")) { void *p = sodium_allocarray(10, 10); rc = p == NULL ? -1 : 0; if (p) { hxw_count_on = 0; sodium_free(p); hxw_live_blocks--; } }
+#undef MEM
+#define MEM 8192U
+#undef str_id
     hxw_count_on = 0; hxw_fail_only = hxw_fail_from = -1;
     if (rc == 99) return -1;
     if (strstr(api, "_str") && !strstr(api, "verify") && !strstr(api, "rehash")) {
